@@ -5073,7 +5073,7 @@ func (p *parser) parseExprOrLetOrUsingStmt(opts parseStmtOpts) (js_ast.Expr, js_
 		}
 		opts.isUsingStmt = true
 		decls := p.parseAndDeclareDecls(ast.SymbolConst, opts)
-		if !opts.isForLoopInit {
+		if !opts.isForLoopInit && !opts.isTypeScriptDeclare {
 			p.requireInitializers(js_ast.LocalUsing, decls)
 		}
 		return js_ast.Expr{}, js_ast.Stmt{Loc: tokenRange.Loc, Data: &js_ast.SLocal{
@@ -5100,7 +5100,7 @@ func (p *parser) parseExprOrLetOrUsingStmt(opts parseStmtOpts) (js_ast.Expr, js_
 				}
 				opts.isUsingStmt = true
 				decls := p.parseAndDeclareDecls(ast.SymbolConst, opts)
-				if !opts.isForLoopInit {
+				if !opts.isForLoopInit && !opts.isTypeScriptDeclare {
 					p.requireInitializers(js_ast.LocalAwaitUsing, decls)
 				}
 				return js_ast.Expr{}, js_ast.Stmt{Loc: tokenRange.Loc, Data: &js_ast.SLocal{
